@@ -22,7 +22,8 @@ RULE = (
     "nothing), add_constraint(expr, limit, name), add_constraint naming an unregistered station "
     "(KeyError, nothing changes), remove_constraint (existing / unknown -> KeyError), "
     "update_constraint (with and without new_name; unknown -> KeyError), and queries "
-    "constraint_current(M, constraints=subset in random order, time_indices=subset). expr is a "
+    "constraint_current(M, constraints=subset in random order, time_indices=subset, linear on/off), "
+    "and a JSON round trip after which the history continues on the restored network. expr is a "
     "generated EXPRESSION TREE over leaves Current(dict | str | list | Series) with +, -, left / "
     "right scalar *, nested to depth 3, listing stations in an order unrelated to registration. "
     "Oracle: a name-keyed model {name: (limit, {station: coefficient})} whose coefficients are "
@@ -55,6 +56,8 @@ class State:
         self.queries = 0
         self.rejected = 0
         self.counter = 0
+        self.json = 0
+        self.linear_queries = 0
 
 
 # ---------------------------------------------------------------- expression trees
@@ -265,10 +268,14 @@ def apply_op(state, op):
             sub = [names[k % len(names)] for k in op["subset"]]
             sub = list(dict.fromkeys(sub)) or names[:1]
             ti = sorted({t % op["T"] for t in op["times"]}, key=lambda t: op["times"].index([x for x in op["times"] if x % op["T"] == t][0])) if op["times"] else None
-            got = net.constraint_current(S, constraints=None if op.get("all") else sub, time_indices=ti)
+            lin = bool(op.get("linear"))
+            got = net.constraint_current(S, constraints=None if op.get("all") else sub, time_indices=ti, linear=lin)
             order = [nm for nm in net.constraint_index if op.get("all") or nm in sub]
             cols = ti if ti is not None else list(range(op["T"]))
-            exp = np.array([[sum(float(model[nm][1].get(s, 0)) * S[i, t] * cmath.exp(1j * math.radians(state.phases[s])) for i, s in enumerate(stns)) for t in cols] for nm in order])
+            if lin:
+                exp = np.array([[sum(abs(float(model[nm][1].get(s, 0))) * S[i, t] for i, s in enumerate(stns)) for t in cols] for nm in order], dtype=complex)
+            else:
+                exp = np.array([[sum(float(model[nm][1].get(s, 0)) * S[i, t] * cmath.exp(1j * math.radians(state.phases[s])) for i, s in enumerate(stns)) for t in cols] for nm in order])
             require(np.shape(got) == exp.shape, "query_shape", lambda: "constraint_current shape %r, expected %r (constraints %r, times %r)" % (np.shape(got), exp.shape, sub, ti))
             require(np.allclose(got, exp, rtol=1e-12, atol=1e-9), "query_rows_and_columns", lambda: "constraint_current(constraints=%r, time_indices=%r) = %r, model rows in network order %r give %r" % (sub, ti, got, order, exp))
             # feasibility verdict follows the same rows/limits
@@ -277,6 +284,13 @@ def apply_op(state, op):
                 want = all(m > 0 for m in margins)
                 require(bool(net.is_feasible(S)) == want, "is_feasible_uses_aligned_rows", lambda: "is_feasible says %r, the model's limits/rows say %r" % (not want, want))
             state.queries += 1
+            if lin:
+                state.linear_queries += 1
+        elif kind == "json":
+            # continue the history on a network restored from its JSON dump
+            restored = ChargingNetwork.from_json(net.to_json())
+            state.net = restored
+            state.json += 1
         else:  # pragma: no cover
             raise ValueError(op)
     check(state)
@@ -296,6 +310,10 @@ def labels_of(state, log):
         labs.append("rename")
     if any(o["op"] == "add_unknown" for o in log):
         labs.append("failed_add")
+    if state.json:
+        labs.append("json_roundtrip")
+    if state.linear_queries:
+        labs.append("linear_query")
     return labs
 
 
@@ -356,9 +374,30 @@ class ConstraintMachine(LoggedMachine):
         self.do({"op": "update", "k": k, "limit": limit, "new_name": ("ren-%d" % self.state.counter) if rename else None, "unknown": unknown, "expr": data.draw(exprs(self.ids()))})
 
     @precondition(lambda self: len(self.state.model) >= 1)
-    @rule(T=st.integers(1, 3), schedule=st.lists(st.sampled_from([0.0, 6.0, 16.5, 32.0]), min_size=3, max_size=9), subset=st.lists(st.integers(0, 7), min_size=1, max_size=4), times=st.lists(st.integers(0, 2), max_size=3, unique=True), whole=st.sampled_from([False, False, True]))
-    def query(self, T, schedule, subset, times, whole):
-        self.do({"op": "query", "T": T, "schedule": schedule, "subset": subset, "times": times, "all": whole})
+    @rule(T=st.integers(1, 3), schedule=st.lists(st.sampled_from([0.0, 6.0, 16.5, 32.0]), min_size=3, max_size=9), subset=st.lists(st.integers(0, 7), min_size=1, max_size=4), times=st.lists(st.integers(0, 2), max_size=3, unique=True), whole=st.sampled_from([False, False, True]), linear=st.sampled_from([False, False, True]))
+    def query(self, T, schedule, subset, times, whole, linear):
+        self.do({"op": "query", "T": T, "schedule": schedule, "subset": subset, "times": times, "all": whole, "linear": linear})
+
+    @precondition(lambda self: len(self.state.model) >= 2)
+    @rule(T=st.integers(1, 2), schedule=st.lists(st.sampled_from([6.0, 16.5, 32.0]), min_size=3, max_size=6), k=st.integers(0, 7), how=st.sampled_from(["remove", "update"]), limit=st.sampled_from([7.0, 33.0]), data=st.data())
+    def query_mutate_query(self, T, schedule, k, how, limit, data):
+        """A linear and a phase-aware query of all rows directly before and after a removal / update
+        (stale per-network caches show here)."""
+        q = {"op": "query", "T": T, "schedule": schedule, "subset": [0], "times": [], "all": True}
+        self.do(dict(q, linear=True))
+        self.do(dict(q, linear=False))
+        if how == "remove":
+            self.do({"op": "remove", "k": k, "unknown": False})
+        else:
+            self.state.counter += 1
+            self.do({"op": "update", "k": k, "limit": limit, "new_name": None, "unknown": False, "expr": data.draw(exprs(self.ids()))})
+        self.do(dict(q, linear=True))
+        self.do(dict(q, linear=False))
+
+    @precondition(lambda self: self.state.json < 2 and len(self.state.stations) >= 1)
+    @rule()
+    def json_roundtrip(self):
+        self.do({"op": "json"})
 
 
 def subchecks(tier):
@@ -369,7 +408,7 @@ def subchecks(tier):
             quick=400,
             thorough=40000,
             steps=25,
-            floors={"remove_or_update_after_two_adds": 0.134, "scalar_multiple_inside_sum": 0.128, "subset_query": 0.101, "failed_add": 0.117},
+            floors={"json_roundtrip": 0.1, "linear_query": 0.05, "remove_or_update_after_two_adds": 0.134, "scalar_multiple_inside_sum": 0.128, "subset_query": 0.101, "failed_add": 0.117},
         )
     ]
 
